@@ -327,3 +327,26 @@ func Run[C any](t *testing.T, id string, gen func(*rapid.T) C, check func(C) Res
 	s.Completed = !t.Failed()
 }
 
+
+// NoteCurrent saves the case that is about to run as <VERIF_OUT>/<id>.<shard>.current.json (in replay
+// format). Properties whose violations can kill the process (race detector with halt_on_error, the
+// C03 watchdog) call it first, so that the driver still has a replayable case.
+func NoteCurrent(id string, c interface{}) string {
+	outDir := os.Getenv("VERIF_OUT")
+	if outDir == "" {
+		return ""
+	}
+	shard := os.Getenv("VERIF_SHARD")
+	if shard == "" {
+		shard = "0"
+	}
+	raw, err := json.Marshal(c)
+	if err != nil {
+		return ""
+	}
+	b, _ := json.MarshalIndent(failDoc{Property: id, Violation: "process died while this case was running (see the attached log)", Case: raw}, "", " ")
+	_ = os.MkdirAll(outDir, 0o755)
+	p := filepath.Join(outDir, fmt.Sprintf("%s.%s.current.json", id, shard))
+	_ = os.WriteFile(p, b, 0o644)
+	return p
+}
